@@ -264,7 +264,9 @@ receiveLoop:
 		otherRecordBuffer = leftRecordBuffer
 	}
 
-	if err := processRecordsUpTo(ctx, minWatermark, true); err != nil {
+	// The records processed here still have to be stored, because records of the finished stream
+	// that are still buffered will have to be matched with them.
+	if err := processRecordsUpTo(ctx, minWatermark, false); err != nil {
 		return err
 	}
 
